@@ -21,7 +21,11 @@ import (
 	"go.uber.org/thriftrw/wire"
 	"verif/bridge/chunk"
 	"verif/bridge/wirex"
+	"verif/cells"
+	"verif/cells/reg"
+	"verif/checks/cellutil"
 	"verif/engine/ev"
+	"verif/ref/schema"
 	"verif/ref/tbin"
 )
 
@@ -34,10 +38,14 @@ const (
 var Check = &ev.Check{
 	ID:    "C13",
 	Level: "fault_enumeration",
-	Rule: "base messages (<=64 bytes): struct-wrapped C02 depth-1/2 container values, valid plugin/api messages (HandshakeResponse, GenerateServiceRequest/Response, Service), each bare, in a strict and a legacy envelope, and framed; " +
+	Rule: "base messages (<=64 bytes): struct-wrapped C02 depth-1/2 container values, valid plugin/api messages (HandshakeResponse, GenerateServiceRequest/Response, Service), the reference encodings (<=96 bytes) of the baseline and single-field deviations of every cell-universe type for the generated decoders, each bare, in a strict and a legacy envelope, and framed; " +
 		"fault = the 4 bytes at every offset (a superset of every position where the format carries a length/count) set to each of {2^16, 2^20+1, 2^24, 2^27, 2^28, 2^28+1, 2^29, 2^29+1, 2^30, 2^30+1, 2^31-1} (values above 2^24 only for (API, position kind) classes that stayed within bounds at 2^24, so that violating classes are found without killing the worker; 2^28..2^30 are where count*width wraps 32 bits); " +
 		"x 15 decoding APIs (Decode+force, Decode+wire.*ToSlice, Decode+EvaluateValue, ReadValue, primitive stream walk, Skip seek/stream, DecodeEnveloped, ReadEnvelopeBegin, DecodeRequest, ReadRequest, frame.Reader.Read, generated FromWire(Decode) and generated Decode for 4 plugin/api types). " +
 		"Oracle per call: TotalAlloc delta <= 12 MiB + 64*N and reader calls <= 16 + 4*N. A case is (message, offset, magnitude); non-trivial = the mutated window overlaps a real length/count field of the reference encoding.",
+	Prepare: func(s *ev.S) error {
+		_, err := cells.Prepare(s, cells.Options{Slim: true})
+		return err
+	},
 	Run: run,
 	Budget: func(t string) time.Duration {
 		return map[string]time.Duration{"quick": 4 * time.Minute, "thorough": 20 * time.Minute}[t]
@@ -55,7 +63,7 @@ var Check = &ev.Check{
 	Assumptions: []string{
 		"time linearity is checked only through the reader-call-count proxy",
 		"K = 12 MiB covers the two documented fixed pre-allocation thresholds (1 MiB binaries, 10 MiB frames)",
-		"generated-code decoders are those of the checked-in plugin/api package (cells generated from the working tree are exercised by the C13 extension once E5 exists)",
+		"generated-code decoders: the checked-in plugin/api package and every struct-like type of the cell universe generated from the working tree",
 	},
 }
 
@@ -340,13 +348,73 @@ func applicable(b base, api string) bool {
 	return false
 }
 
+// cellBases: for every compiled struct-like type of the cell universe, the
+// reference encoding of its baseline value and of every value with one field
+// set to a two-element container / a binary, if it fits 96 bytes.
+func cellBases(w *ev.W) ([]base, map[string]reg.Entry) {
+	env := cellutil.Load(w)
+	ents := map[string]reg.Entry{}
+	var out []base
+	for _, cell := range env.Cells {
+		ent, ok := reg.Find(cell.Pkg, cell.Def)
+		if !ok {
+			continue
+		}
+		f := env.Files[cell.File]
+		for _, d := range f.Defs {
+			if d.Name != cell.Def {
+				continue
+			}
+			t := schema.Named(d.Name)
+			seen := map[string]bool{}
+			for _, v := range env.P.Deviations(f, d, 1) {
+				if !env.P.Valid(f, t, v) {
+					continue
+				}
+				wv := env.P.ToWire(f, t, v)
+				marks := tbin.Marks(wv, 0)
+				if len(marks) == 0 {
+					continue
+				}
+				enc := tbin.Encode(wv)
+				if len(enc) > 96 || seen[string(enc)] {
+					continue
+				}
+				seen[string(enc)] = true
+				name := "cell:" + cell.Pkg + "." + cell.Def
+				ents[name] = ent
+				out = append(out, base{name: name, msg: enc, marks: marks, apis: []string{"cellgen:"}})
+			}
+		}
+	}
+	return out, ents
+}
+
 func run(w *ev.W) {
 	if rp := w.Args["replay"]; rp != "" {
 		replay(w, rp)
 		return
 	}
-	bs := bases(!w.Quick())
+	cb, ents := cellBases(w)
+	for name, ent := range ents {
+		ent := ent
+		_ = name
+		_ = ent
+	}
+	cellAPIs := func(b base) []apiFn {
+		ent := ents[b.name]
+		return []apiFn{
+			{"gen:" + b.name + ".FromWire", func(msg []byte) int { cellutil.DecodeValue(ent.Type, msg); return 0 }},
+			{"gen:" + b.name + ".Decode", func(msg []byte) int {
+				cr := &chunk.Reader{B: msg}
+				cellutil.DecodeStream(ent.Type, cr)
+				return cr.Reads
+			}},
+		}
+	}
+	bs := append(bases(!w.Quick()), cb...)
 	w.Count("base_messages", 0)
+	w.Count("cell_base_messages", int64(len(cb)))
 	// classes (api,pos) already seen violating at a survivable magnitude: do
 	// not escalate to 2^31-1 there.
 	bad := map[string]bool{}
@@ -367,6 +435,14 @@ func run(w *ev.W) {
 				}
 				msg := append([]byte{}, b.msg...)
 				msg[off], msg[off+1], msg[off+2], msg[off+3] = byte(mag>>24), byte(mag>>16), byte(mag>>8), byte(mag)
+				kind := kind
+				if strings.HasPrefix(b.name, "bare:") || strings.HasPrefix(b.name, "cell:") {
+					// name the header that actually declares the large value in the mutated
+					// message (a window that overlaps a length field shifts bytes into it)
+					if v, k := tbin.LargestDeclared(tbin.Struct, msg); v >= 1<<16 && k != "" {
+						kind = k
+					}
+				}
 				w.Eval(1)
 				if real {
 					w.Nontrivial(1)
@@ -374,8 +450,12 @@ func run(w *ev.W) {
 				if w.WantSample() && real && (bi*31+off)%17 == 0 {
 					w.Sample(map[string]interface{}{"base": b.name, "offset": off, "pos": kind, "value": mag, "msg": hex.EncodeToString(msg)})
 				}
-				for _, a := range apis {
-					if !applicable(b, a.name) {
+				list := apis
+				if strings.HasPrefix(b.name, "cell:") {
+					list = cellAPIs(b)
+				}
+				for _, a := range list {
+					if !strings.HasPrefix(b.name, "cell:") && !applicable(b, a.name) {
 						continue
 					}
 					w.Progress(fmt.Sprintf("api=%s pos=%s base=%s off=%d value=%d msg=%s", a.name, kind, b.name, off, mag, hex.EncodeToString(msg)))
@@ -410,8 +490,17 @@ func measure(a apiFn, msg []byte, ms *runtime.MemStats) (delta uint64, reads int
 	return ms.TotalAlloc - before, reads, pan
 }
 
+// violCount counts violations per (api class, position kind) in this worker:
+// after three instances the class is established and further large
+// magnitudes there are skipped (each costs hundreds of MiB of allocation).
+var violCount = map[string]int{}
+
 func one(w *ev.W, a apiFn, msg []byte, kind string, off int, mag uint32, ms *runtime.MemStats, bad map[string]bool) {
 	n := uint64(len(msg))
+	if ck := apiClass(a.name) + "|" + kind; violCount[ck] >= 3 && mag >= survivable {
+		w.Count("large_magnitudes_skipped_for_established_violating_class", 1)
+		return
+	}
 	if mag > survivable && !bad[a.name+"|"+kind] {
 		// probe the same window at 2^24 first: a class that already exceeds
 		// the bound there is not escalated (it would only kill the worker)
@@ -437,6 +526,7 @@ func one(w *ev.W, a apiFn, msg []byte, kind string, off int, mag uint32, ms *run
 	}
 	if delta > allocK+allocC*n {
 		bad[a.name+"|"+kind] = true
+		violCount[apiClass(a.name)+"|"+kind]++
 		w.Violation("cost:api="+apiClass(a.name)+":pos="+kind, fmt.Sprintf("%s allocated %d bytes for a %d-byte message (bound %d): 4 bytes at offset %d (%s) set to %d; msg=%s",
 			a.name, delta, n, allocK+allocC*n, off, kind, mag, pl.Msg), pl)
 		w.Outcome("alloc-exceeded")
